@@ -91,6 +91,7 @@ NTR:
 
 from dawgie.pl.jobinfo import State
 
+import calendar
 import datetime
 import dawgie
 import dawgie.context
@@ -144,10 +145,18 @@ def _delay(when: dawgie.EVENT) -> datetime.timedelta:
             pass
 
         if when.moment.dom is not None:
-            nm = now.month + 1
+            # this month unless the day has gone by, then the next month
+            # that has such a day (not all months have a 29th, 30th or 31st)
+            year, month = now.year, now.month
+            if when.moment.dom < now.day:
+                year, month = year + month // 12, month % 12 + 1
+            while calendar.monthrange(year, month)[1] < min(
+                when.moment.dom, 31
+            ):
+                year, month = year + month // 12, month % 12 + 1
             then = datetime.datetime(
-                year=now.year + (1 if nm == 13 else 0),
-                month=1 if nm == 13 else nm,
+                year=year,
+                month=month,
                 day=when.moment.dom,
                 hour=when.moment.time.hour,
                 minute=when.moment.time.minute,
